@@ -21,7 +21,8 @@ from vlib.verdict import Check, machinery_failure  # noqa: E402
 
 PROP = "C06"
 AS_BUILT_DEV = ("RenameWithoutOnly", "PrivateImportIgnored", "EmptyOnly", "OneLocalPerRemote")
-FINDING = {"RenameWithoutOnly": "C06-F1", "PrivateImportIgnored": "C06-F2", "EmptyOnly": "C06-F3", "OneLocalPerRemote": "C06-F4"}
+FINDING = {"RenameWithoutOnly": "C06-F1", "PrivateImportIgnored": "C06-F2", "EmptyOnly": "C06-F3", "OneLocalPerRemote": "C06-F4",
+           "CrossClassHostHiding": "C06-F5"}
 NAMES = ("a", "b", "c")
 KINDMAPS = {
     "K1": {"a": "type", "b": "sub"},
@@ -71,9 +72,17 @@ def decl_lines(name, kind):
 PROBE_SLOTS = ("type", "call", "fcall", "procptr", "namelist")
 
 
+STUB = "omp_lib"      # a project module may be called like one of the modules FORD knows as external (mpi, omp_lib, iso_c_binding, ...)
+
+
 def render(mods, kindmap, style, placement="program"):
     files = {}
     nm = len(mods) - 1
+    stub = placement.endswith("-stubname")
+    placement = placement.replace("-stubname", "")
+    if stub:
+        files = render(mods, kindmap, style, placement)
+        return {k: re.sub(r"\bm1\b", STUB, v) for k, v in files.items()}
     for i, M in enumerate(mods[:-1], start=1):
         L = [f"module m{i}"]
         L += ["  " + use_line(u, style) for u in M["uses"]]
@@ -113,8 +122,9 @@ def render(mods, kindmap, style, placement="program"):
     else:
         # USE statements inside procedures of a module that has no USE of its own
         ind = lambda ls: ["  " + x for x in ls]
+        host_use = ["  use m1"] if placement == "hosted" else []      # the host sees m1's exports; the procedures' own USEs hide them
         files["aprobe.f90"] = "\n".join(
-            ["module aprobe", "  implicit none", "contains", "  subroutine probe()"] + ind(uses) + ind(body1) + ["  end subroutine probe",
+            ["module aprobe"] + host_use + ["  implicit none", "contains", "  subroutine probe()"] + ind(uses) + ind(body1) + ["  end subroutine probe",
              "  subroutine probe2()"] + ind(uses) + ind(body2) + ["  end subroutine probe2", "end module aprobe"]) + "\n"
     return files
 
@@ -123,7 +133,8 @@ def ident(obj):
     if isinstance(obj, str):
         return "unresolved"
     par = getattr(obj, "parent", None)
-    return f"{getattr(par, 'name', '?').lower()}::{obj.name.lower()}"
+    pn = getattr(par, "name", "?").lower()
+    return f"{'m1' if pn == STUB else pn}::{obj.name.lower()}"
 
 
 def observe(files, order):
@@ -186,8 +197,8 @@ def expected_obs(resolve, kindmap):
     return exp, calls, fcalls
 
 
-def compare(resolve, kindmap, obs):
-    """List of (slot, expected, observed) mismatches."""
+def compare(resolve, kindmap, obs, allow_missing=frozenset()):
+    """List of (slot, expected, observed) mismatches.  allow_missing: call targets that may be absent (as-built prediction of C06-F5)."""
     if "_error" in obs:
         return [("_error", "parse", obs["_error"])]
     exp, calls, fcalls = expected_obs(resolve, kindmap)
@@ -202,7 +213,7 @@ def compare(resolve, kindmap, obs):
                 must |= w
         free = any(w is None for w in wants)
         gotset = set(got)
-        missing = must - gotset
+        missing = must - gotset - set(allow_missing)
         extra = set() if free else gotset - must
         # with wrong-class references present, anything else FORD reports must at least not be a spurious resolution
         if free:
@@ -234,15 +245,36 @@ def evaluate(case):
                     obs = observe(files, order)
                 except Exception as ex:
                     obs = {"_error": f"{type(ex).__name__}: {ex}"}
-                bad = compare(case["resolve"], kindmap, obs)
+                if placement.startswith("hosted"):
+                    comp = lambda inner, outer: {n: (inner[n] if inner[n][0] != 0 else outer[n]) for n in inner}
+                    resolve, impl = comp(case["resolve"], case["exp1"]), comp(case["impl"], case["iexp1"])
+                    by = {d: comp(r, case["byexp1"][d]) for d, r in case["by"].items()}
+                else:
+                    resolve, impl, by = case["resolve"], case["impl"], case["by"]
+                bad = compare(resolve, kindmap, obs)
                 # does the as-built model (with the open deviations) predict what we saw?
                 explained = None
                 if bad and "_error" not in obs:
-                    if not compare(case["impl"], kindmap, obs):
+                    dropped = set()
+                    if placement.startswith("hosted"):
+                        # as built the name tables are kept per class: a procedure imported by the inner USE does not hide a
+                        # TYPE of the same name that the host sees, and a call through that name is taken for a constructor
+                        for res in (resolve, impl):
+                            for n in res:
+                                if case["resolve"][n][0] != 0 or case["impl"][n][0] != 0:
+                                    inner = case["impl"][n] if res is impl else case["resolve"][n]
+                                    if inner[0] != 0 and kindmap[inner[1]] in ("sub", "func", "generic") and case["exp1"][n][0] != 0 \
+                                            and kindmap[case["exp1"][n][1]] == "type":
+                                        dropped.add(f"m{inner[0]}::{inner[1]}")
+                    devs = [d for d, r in by.items() if r != resolve] or [d for d in by if trigger(d, case["mods"])]
+                    if not compare(impl, kindmap, obs):
                         # which open deviation(s) explain it: a single one, else those whose trigger occurs
-                        explained = [d for d, r in case["by"].items() if r != case["resolve"]] or \
-                                    [d for d in case["by"] if trigger(d, case["mods"])]
-                out.append({"km": km, "style": style, "placement": placement, "order": order, "bad": bad, "explained": explained,
+                        explained = [devs]
+                    elif dropped and not compare(resolve, kindmap, obs, dropped):
+                        explained = [["CrossClassHostHiding"]]
+                    elif dropped and not compare(impl, kindmap, obs, dropped):
+                        explained = [devs, ["CrossClassHostHiding"]]      # both findings at once: each must be open
+                out.append({"km": km, "style": style, "placement": placement, "order": order, "bad": bad, "explained": explained, "resolve": resolve,
                             "files": files if bad else None, "obs": obs if bad else None})
     return out
 
@@ -278,7 +310,9 @@ def _parse_block(block):
                      "uses": [{"m": u["m"], "only": u["only"], "items": [dict(i) for i in u["items"]]} for u in M["uses"]],
                      "acc": dict(M["acc"]) if M["acc"] else {}})
     return {"mods": mods, "resolve": _norm(out["resolve"]), "impl": _norm(out["impl"]),
-            "by": {d: _norm(r) for d, r in (out["by"].items() if out["by"] else [])}, "cost": st["cost"]}
+            "by": {d: _norm(r) for d, r in (out["by"].items() if out["by"] else [])}, "cost": st["cost"],
+            "exp1": _norm(out["exp1"]), "iexp1": _norm(out["iexp1"]),
+            "byexp1": {d: _norm(r) for d, r in (out["byexp1"].items() if out["byexp1"] else [])}}
 
 
 def generate(scratch, k, cost, dev, ck, design=True):
@@ -325,8 +359,8 @@ def run(tier, seed, ck: Check):
             c["tier"] = tier
             c["kindmaps"] = ("K1", "K2", "K3") if big else (("K1", "K2", "K3")[zlib.crc32(json.dumps(c["mods"], sort_keys=True).encode()) % 3],)
             h = zlib.crc32(json.dumps(c["mods"], sort_keys=True).encode())
-            c["styles"] = ((0, "program"), (1, "program"), (0, "modproc"), (1, "modproc")) if big else \
-                          (((h >> 2) % 2, "program" if (h >> 3) % 2 else "modproc"),)
+            c["styles"] = ((0, "program"), (1, "program"), (0, "modproc"), (1, "modproc"), (0, "hosted"), (1, "hosted"), (0, "program-stubname"), (0, "modproc-stubname")) if big else \
+                          (((h >> 2) % 2, ("program", "modproc", "hosted", "program-stubname")[(h >> 3) % 4]),)
         results = pool.pmap(evaluate, cases, chunksize=20)
         for c, rs in zip(cases, results):
             if nontrivial(c):
@@ -336,15 +370,11 @@ def run(tier, seed, ck: Check):
                 if not r["bad"]:
                     continue
                 if r["explained"]:
-                    hit = False
-                    for d in r["explained"]:
-                        if ck.known_finding(FINDING[d]):
-                            hit = True
-                            break
-                    if hit:
+                    # every group of the explanation needs one open finding
+                    if all(any(ck.known_finding(FINDING[d]) for d in group) for group in r["explained"]):
                         continue
                 ck.violation("use-association", {"mods": c["mods"], "kindmap": r["km"], "style": r["style"], "placement": r["placement"], "order": r["order"]},
-                             expected={n: list(v) for n, v in c["resolve"].items()}, observed=r["obs"],
+                             expected={n: list(v) for n, v in r["resolve"].items()}, observed=r["obs"],
                              detail="; ".join(f"{k}: FORD {o!r}, rules {e!r}" for k, e, o in r["bad"][:4]), extra={"files": r["files"]})
         for c in cases[:: max(1, len(cases) // 4)][:4]:
             ck.sample({"mods": c["mods"], "resolve": {n: list(v) for n, v in c["resolve"].items()}, "files": render(c["mods"], KINDMAPS["K1"], 0)})
@@ -352,6 +382,8 @@ def run(tier, seed, ck: Check):
         ck.assumptions += [
             "entity names are declared in exactly one module; imported names never clash (illegal Fortran is not generated)",
             "when one module is USEd twice in a scoping unit and some statement renames, every statement for it has ONLY",
+            "placement '*-stubname': module m1 is called omp_lib, a name FORD also knows as an external module; the project's own module is the one a USE refers to",
+            "placement 'hosted': the probe procedures stand in a module that itself has a plain `use m1`; a name their own USE statements make accessible hides the host's (F2018 19.5.1.4), any other name of m1's exports is host associated",
             "resolution is observed through probe references (type(n), procedure(n) pointer, namelist, call n(), x = n(1)) in a program; a probe of a name that is not accessible is expected to stay unresolved text",
             "file orders: ascending and descending (quick) / all permutations (thorough, <= 5 files)",
         ]
